@@ -142,7 +142,7 @@ def main():
              "kind_free_text": "Rust harness binary (path dependency on /repo, built in dev and release): exhaustive enumerators + proptest-driven random generation, reference models (grammar, vocabulary, chmod, printf scanner, find evaluator), independent Scheme reader/evaluator with a LiPE runtime model"},
         ],
         "checks": checks,
-        "notes": "Technique family: property-based testing and fuzzing. Known findings are listed in /verif/KNOWN_FINDINGS.txt; fix: commits in /repo are recorded there as fixed: lines.",
+        "notes": "Technique family: property-based testing and fuzzing. Known findings are listed in /verif/KNOWN_FINDINGS.txt; fix: commits in /repo are recorded there as fixed: lines. Every check also re-runs itself in child processes under perturbed environments (moved fast-running wall clock through an LD_PRELOAD shim built by ./check, time zone, locale, variables named in the sources): DESIGN.md 10.6; their counts are under coverage.environment_runs of the evidence files.",
         "not_applicable": na,
     }
     json.dump(m, open("/verif/MANIFEST.json", "w"), indent=1)
